@@ -31,9 +31,10 @@ func init() {
 }
 
 type replNode struct {
-	dir string
-	eng *engine.EngineFacade
-	mgr *replication.Manager
+	dir    string
+	eng    *engine.EngineFacade
+	mgr    *replication.Manager
+	count0 uint64 // the engine's own sequence counter when it was opened, before replication started
 }
 
 func replFreeAddr() string {
@@ -80,6 +81,8 @@ func startReplReplica(dir, self, primary string, cc *CfgClass) (*replNode, error
 	if err != nil {
 		return nil, err
 	}
+	var count0 uint64
+	fmt.Sscan(replEngLastSeq(eng), &count0)
 	mgr, err := replication.NewManager(eng, &replication.ManagerConfig{Enabled: true, Mode: replication.ReplicationModeReplica,
 		PrimaryAddr: primary, ListenAddr: self, ForceReadOnly: true})
 	if err == nil {
@@ -89,7 +92,7 @@ func startReplReplica(dir, self, primary string, cc *CfgClass) (*replNode, error
 		eng.Close()
 		return nil, err
 	}
-	return &replNode{dir: dir, eng: eng, mgr: mgr}, nil
+	return &replNode{dir: dir, eng: eng, mgr: mgr, count0: count0}, nil
 }
 
 // stop ends the node; false if Stop/Close did not return in time (the goroutine is abandoned)
@@ -219,6 +222,7 @@ type replDriver struct {
 	prim     *replNode
 	mu       sync.Mutex // protects repl (the sampler runs concurrently with restarts)
 	repl     *replNode
+	joined   bool
 	last     string
 	nsamples int
 	stopS    chan struct{}
@@ -345,11 +349,17 @@ func (d *replDriver) write(op []kvEntry, api string) error {
 	return err
 }
 
+// join starts the replica on its data directory; every start after the first one is a restart and is logged with the
+// number of entries the replica engine had been handed in its earlier lives
 func (d *replDriver) join() error {
 	n, err := startReplReplica(filepath.Join(d.dir, "replica"), d.raddr, d.paddr, &d.cc)
 	if err != nil {
 		return err
 	}
+	if d.joined {
+		d.log.ev(map[string]interface{}{"e": "rrestart", "rcount": n.count0})
+	}
+	d.joined = true
 	d.mu.Lock()
 	d.repl = n
 	d.mu.Unlock()
@@ -419,7 +429,8 @@ func replSysCmd(args []string) int {
 					return fail("replica start: " + err.Error())
 				}
 			}
-		case "rrestart":
+		case "rrestart", "rstop":
+			// rstop ... rstart: the primary may write while the replica is down
 			if d.repl == nil {
 				continue
 			}
@@ -430,9 +441,17 @@ func replSysCmd(args []string) int {
 			if !old.stop(20 * time.Second) {
 				return fail("replica stop did not return within 20 s")
 			}
-			d.log.ev(map[string]interface{}{"e": "rrestart"})
-			if err := d.join(); err != nil {
-				return fail("replica restart: " + err.Error())
+			d.log.ev(map[string]interface{}{"e": "rstop"})
+			if s.A == "rrestart" {
+				if err := d.join(); err != nil {
+					return fail("replica restart: " + err.Error())
+				}
+			}
+		case "rstart":
+			if d.repl == nil {
+				if err := d.join(); err != nil {
+					return fail("replica restart: " + err.Error())
+				}
 			}
 		case "cwr":
 			// a client write on the replica must be refused and change nothing (the sampler would show a change)
